@@ -9545,36 +9545,38 @@ type icond =
 (** val include_checks : (icond * string) list **)
 
 let include_checks =
-  ((IFirstByte (Npos (XI (XI (XI (XI (XO XH))))))), (String ((Ascii (true,
-    true, false, false, false, true, true, false)), (String ((Ascii (true,
-    false, false, false, false, true, true, false)), (String ((Ascii (false,
-    true, true, true, false, true, true, false)), (String ((Ascii (false,
-    true, true, true, false, true, true, false)), (String ((Ascii (true,
-    true, true, true, false, true, true, false)), (String ((Ascii (false,
-    false, true, false, true, true, true, false)), (String ((Ascii (false,
-    false, false, false, false, true, false, false)), (String ((Ascii (false,
-    true, true, true, false, true, true, false)), (String ((Ascii (true,
-    true, true, true, false, true, true, false)), (String ((Ascii (false,
-    false, true, false, true, true, true, false)), (String ((Ascii (false,
-    false, false, false, false, true, false, false)), (String ((Ascii (true,
-    true, false, false, true, true, true, false)), (String ((Ascii (false,
-    false, true, false, true, true, true, false)), (String ((Ascii (true,
-    false, false, false, false, true, true, false)), (String ((Ascii (false,
-    true, false, false, true, true, true, false)), (String ((Ascii (false,
-    false, true, false, true, true, true, false)), (String ((Ascii (false,
-    false, false, false, false, true, false, false)), (String ((Ascii (true,
-    true, true, false, true, true, true, false)), (String ((Ascii (true,
-    false, false, true, false, true, true, false)), (String ((Ascii (false,
-    false, true, false, true, true, true, false)), (String ((Ascii (false,
-    false, false, true, false, true, true, false)), (String ((Ascii (false,
-    false, false, false, false, true, false, false)), (String ((Ascii (false,
-    false, false, false, false, true, true, false)), (String ((Ascii (true,
-    true, true, true, false, true, false, false)), (String ((Ascii (false,
-    false, false, false, false, true, true, false)),
+  ((IHasPrefix ((Npos (XI (XI (XI (XI (XO XH)))))) :: [])), (String ((Ascii
+    (true, true, false, false, false, true, true, false)), (String ((Ascii
+    (true, false, false, false, false, true, true, false)), (String ((Ascii
+    (false, true, true, true, false, true, true, false)), (String ((Ascii
+    (false, true, true, true, false, true, true, false)), (String ((Ascii
+    (true, true, true, true, false, true, true, false)), (String ((Ascii
+    (false, false, true, false, true, true, true, false)), (String ((Ascii
+    (false, false, false, false, false, true, false, false)), (String ((Ascii
+    (false, true, true, true, false, true, true, false)), (String ((Ascii
+    (true, true, true, true, false, true, true, false)), (String ((Ascii
+    (false, false, true, false, true, true, true, false)), (String ((Ascii
+    (false, false, false, false, false, true, false, false)), (String ((Ascii
+    (true, true, false, false, true, true, true, false)), (String ((Ascii
+    (false, false, true, false, true, true, true, false)), (String ((Ascii
+    (true, false, false, false, false, true, true, false)), (String ((Ascii
+    (false, true, false, false, true, true, true, false)), (String ((Ascii
+    (false, false, true, false, true, true, true, false)), (String ((Ascii
+    (false, false, false, false, false, true, false, false)), (String ((Ascii
+    (true, true, true, false, true, true, true, false)), (String ((Ascii
+    (true, false, false, true, false, true, true, false)), (String ((Ascii
+    (false, false, true, false, true, true, true, false)), (String ((Ascii
+    (false, false, false, true, false, true, true, false)), (String ((Ascii
+    (false, false, false, false, false, true, false, false)), (String ((Ascii
+    (false, false, false, false, false, true, true, false)), (String ((Ascii
+    (true, true, true, true, false, true, false, false)), (String ((Ascii
+    (false, false, false, false, false, true, true, false)),
     EmptyString))))))))))))))))))))))))))))))))))))))))))))))))))) :: (((IOr
-    ((IOr ((IOr ((IOr ((IOr ((IContains ((Npos (XI (XI (XI (XI (XO
-    XH)))))) :: ((Npos (XO (XI (XI (XI (XO XH)))))) :: ((Npos (XI (XI (XI (XI
-    (XO XH)))))) :: [])))), (IContains ((Npos (XO (XI (XI (XI (XO
+    ((IOr ((IOr ((IOr ((IOr ((IOr ((IOr ((IEquals ((Npos (XO (XI (XI (XI (XO
+    XH)))))) :: [])), (IEquals ((Npos (XO (XI (XI (XI (XO XH)))))) :: ((Npos
+    (XO (XI (XI (XI (XO XH)))))) :: []))))), (IContains ((Npos (XI (XI (XI
+    (XI (XO XH)))))) :: ((Npos (XO (XI (XI (XI (XO XH)))))) :: ((Npos (XI (XI
+    (XI (XI (XO XH)))))) :: [])))))), (IContains ((Npos (XO (XI (XI (XI (XO
     XH)))))) :: ((Npos (XI (XI (XI (XI (XO XH)))))) :: []))))), (IContains
     ((Npos (XI (XI (XI (XI (XO XH)))))) :: ((Npos (XO (XI (XI (XI (XO
     XH)))))) :: []))))), (IContains ((Npos (XI (XI (XI (XI (XO
@@ -11400,20 +11402,16 @@ let rec fs_lookup fs name =
   | p :: rest ->
     let (n0, e) = p in if beq n0 name then Some e else fs_lookup rest name
 
-(** val split_on : n -> bytes -> bytes -> bytes list **)
-
-let rec split_on sep s cur =
-  match s with
-  | [] -> (rev cur) :: []
-  | c :: r ->
-    if N.eqb c sep
-    then (rev cur) :: (split_on sep r [])
-    else split_on sep r (c :: cur)
-
 (** val segments : bytes -> bytes list **)
 
-let segments s =
-  split_on (Npos (XI (XI (XI (XI (XO XH)))))) s []
+let rec segments = function
+| [] -> [] :: []
+| c :: r ->
+  if N.eqb c (Npos (XI (XI (XI (XI (XO XH))))))
+  then [] :: (segments r)
+  else (match segments r with
+        | [] -> (c :: []) :: []
+        | seg :: rest -> (c :: seg) :: rest)
 
 (** val dot : n list **)
 
@@ -11459,6 +11457,40 @@ let join_dir includer name =
   (match clean_segs (app dirsegs (segments name)) [] with
    | [] -> dot
    | b :: l -> join_segs (b :: l))
+
+type stat_res =
+| SFile of bytes
+| SDir
+| SMissing
+| SNotDir
+
+(** val proper_prefixes : bytes list -> bytes list -> bytes list list **)
+
+let rec proper_prefixes segs acc =
+  match segs with
+  | [] -> []
+  | s :: rest ->
+    (match rest with
+     | [] -> []
+     | _ :: _ ->
+       (app acc (s :: [])) :: (proper_prefixes rest (app acc (s :: []))))
+
+(** val stat_path : fsmap -> bytes -> stat_res **)
+
+let stat_path fs p =
+  match fs_lookup fs p with
+  | Some f -> (match f with
+               | FFile c -> SFile c
+               | FDir -> SDir)
+  | None ->
+    if existsb (fun pre ->
+         match fs_lookup fs (join_segs pre) with
+         | Some f -> (match f with
+                      | FFile _ -> true
+                      | FDir -> false)
+         | None -> false) (proper_prefixes (segments p) [])
+    then SNotDir
+    else SMissing
 
 (** val eval_icond : icond -> bytes -> bool option **)
 
@@ -11873,126 +11905,180 @@ let process_include prog nl_cond ws_cond fs olen init_st st kw =
           (match lex_value st0 pl with
            | Some raw ->
              let name = unquote raw in
-             let bad = fun st1 why -> ((CErr
-               (lexeme_error st1 kw
-                 (mkMsg (String ((Ascii (true, false, true, false, false,
-                   true, false, false)), (String ((Ascii (true, true, false,
-                   false, true, true, true, false)), (String ((Ascii (false,
-                   false, false, false, false, true, false, false)), (String
-                   ((Ascii (false, false, false, true, false, true, false,
-                   false)), (String ((Ascii (true, false, true, false, false,
-                   true, false, false)), (String ((Ascii (true, true, false,
-                   false, true, true, true, false)), (String ((Ascii (true,
-                   false, false, true, false, true, false, false)), (String
-                   ((Ascii (false, false, false, false, false, true, false,
-                   false)), (String ((Ascii (true, false, true, false, false,
-                   true, false, false)), (String ((Ascii (true, false, false,
-                   false, true, true, true, false)), (String ((Ascii (false,
-                   true, false, true, true, true, false, false)), (String
-                   ((Ascii (false, false, false, false, false, true, false,
-                   false)), (String ((Ascii (true, false, true, false, false,
-                   true, false, false)), (String ((Ascii (true, true, false,
-                   false, true, true, true, false)),
-                   EmptyString))))))))))))))))))))))))))))
-                   ((str jerr_IncorrectParameter) :: (fname :: (name :: (why :: []))))))),
-               st1)
-             in
-             (match validate_include include_checks name with
-              | Some o ->
-                (match o with
-                 | Some m -> bad st0 (str m)
-                 | None ->
-                   let p = join_dir (file_name st0 st0.cs_file) name in
-                   let st1 =
-                     add_log st0 (String ((Ascii (true, true, false, false,
-                       true, true, true, false)), (String ((Ascii (false,
-                       false, true, false, true, true, true, false)), (String
-                       ((Ascii (true, false, false, false, false, true, true,
-                       false)), (String ((Ascii (false, false, true, false,
-                       true, true, true, false)), EmptyString)))))))) p
-                   in
-                   (match fs_lookup fs p with
-                    | Some f ->
-                      (match f with
-                       | FFile content ->
-                         let st2 =
-                           add_log st1 (String ((Ascii (false, true, false,
-                             false, true, true, true, false)), (String
-                             ((Ascii (true, false, true, false, false, true,
-                             true, false)), (String ((Ascii (true, false,
-                             false, false, false, true, true, false)),
-                             (String ((Ascii (false, false, true, false,
-                             false, true, true, false)), EmptyString)))))))) p
-                         in
-                         let me = file_name st2 st2.cs_file in
-                         if existsb (fun it ->
-                              beq (file_name st2 it.si_file) me) st2.cs_stack
-                         then ((CErr
-                                (lexeme_error st2 kw
-                                  (msg1 jerr_RecursionIsProhibited))), st2)
-                         else let id = N.of_nat (length st2.cs_files) in
-                              let st' = { cs_forest = st2.cs_forest; cs_ctx =
-                                st2.cs_ctx; cs_cur = st2.cs_cur; cs_file =
-                                id; cs_conf = (init_conf init_st); cs_stack =
-                                ({ si_file = st2.cs_file; si_conf =
-                                st2.cs_conf; si_at =
-                                kw.lb } :: st2.cs_stack); cs_tracers =
-                                st2.cs_tracers; cs_files =
-                                (app st2.cs_files ((p, content) :: []));
-                                cs_log = st2.cs_log }
-                              in
-                              ((COk st'), st')
-                       | FDir ->
-                         bad st1
-                           (str (String ((Ascii (true, false, false, true,
-                             false, true, true, false)), (String ((Ascii
-                             (true, true, false, false, true, true, true,
-                             false)), (String ((Ascii (false, false, false,
-                             false, false, true, false, false)), (String
-                             ((Ascii (true, false, false, false, false, true,
-                             true, false)), (String ((Ascii (false, false,
-                             false, false, false, true, false, false)),
-                             (String ((Ascii (false, false, true, false,
-                             false, true, true, false)), (String ((Ascii
-                             (true, false, false, true, false, true, true,
-                             false)), (String ((Ascii (false, true, false,
-                             false, true, true, true, false)), (String
-                             ((Ascii (true, false, true, false, false, true,
-                             true, false)), (String ((Ascii (true, true,
-                             false, false, false, true, true, false)),
-                             (String ((Ascii (false, false, true, false,
-                             true, true, true, false)), (String ((Ascii
-                             (true, true, true, true, false, true, true,
-                             false)), (String ((Ascii (false, true, false,
-                             false, true, true, true, false)), (String
-                             ((Ascii (true, false, false, true, true, true,
-                             true, false)),
-                             EmptyString))))))))))))))))))))))))))))))
-                    | None ->
-                      bad st1
-                        (str (String ((Ascii (false, false, true, false,
-                          false, true, true, false)), (String ((Ascii (true,
-                          true, true, true, false, true, true, false)),
-                          (String ((Ascii (true, false, true, false, false,
-                          true, true, false)), (String ((Ascii (true, true,
-                          false, false, true, true, true, false)), (String
-                          ((Ascii (false, false, false, false, false, true,
-                          false, false)), (String ((Ascii (false, true, true,
-                          true, false, true, true, false)), (String ((Ascii
-                          (true, true, true, true, false, true, true,
-                          false)), (String ((Ascii (false, false, true,
-                          false, true, true, true, false)), (String ((Ascii
-                          (false, false, false, false, false, true, false,
-                          false)), (String ((Ascii (true, false, true, false,
-                          false, true, true, false)), (String ((Ascii (false,
-                          false, false, true, true, true, true, false)),
-                          (String ((Ascii (true, false, false, true, false,
-                          true, true, false)), (String ((Ascii (true, true,
-                          false, false, true, true, true, false)), (String
-                          ((Ascii (false, false, true, false, true, true,
-                          true, false)),
-                          EmptyString)))))))))))))))))))))))))))))))
-              | None -> ((CPanic CPEmptyIncludeName), st0))
+             if beq name []
+             then required
+             else let bad = fun st1 why -> ((CErr
+                    (lexeme_error st1 kw
+                      (mkMsg (String ((Ascii (true, false, true, false,
+                        false, true, false, false)), (String ((Ascii (true,
+                        true, false, false, true, true, true, false)),
+                        (String ((Ascii (false, false, false, false, false,
+                        true, false, false)), (String ((Ascii (false, false,
+                        false, true, false, true, false, false)), (String
+                        ((Ascii (true, false, true, false, false, true,
+                        false, false)), (String ((Ascii (true, true, false,
+                        false, true, true, true, false)), (String ((Ascii
+                        (true, false, false, true, false, true, false,
+                        false)), (String ((Ascii (false, false, false, false,
+                        false, true, false, false)), (String ((Ascii (true,
+                        false, true, false, false, true, false, false)),
+                        (String ((Ascii (true, false, false, false, true,
+                        true, true, false)), (String ((Ascii (false, true,
+                        false, true, true, true, false, false)), (String
+                        ((Ascii (false, false, false, false, false, true,
+                        false, false)), (String ((Ascii (true, false, true,
+                        false, false, true, false, false)), (String ((Ascii
+                        (true, true, false, false, true, true, true, false)),
+                        EmptyString))))))))))))))))))))))))))))
+                        ((str jerr_IncorrectParameter) :: (fname :: (name :: (why :: []))))))),
+                    st1)
+                  in
+                  (match validate_include include_checks name with
+                   | Some o ->
+                     (match o with
+                      | Some m -> bad st0 (str m)
+                      | None ->
+                        let p = join_dir (file_name st0 st0.cs_file) name in
+                        let st1 =
+                          add_log st0 (String ((Ascii (true, true, false,
+                            false, true, true, true, false)), (String ((Ascii
+                            (false, false, true, false, true, true, true,
+                            false)), (String ((Ascii (true, false, false,
+                            false, false, true, true, false)), (String
+                            ((Ascii (false, false, true, false, true, true,
+                            true, false)), EmptyString)))))))) p
+                        in
+                        (match stat_path fs p with
+                         | SFile content ->
+                           let st2 =
+                             add_log st1 (String ((Ascii (false, true, false,
+                               false, true, true, true, false)), (String
+                               ((Ascii (true, false, true, false, false,
+                               true, true, false)), (String ((Ascii (true,
+                               false, false, false, false, true, true,
+                               false)), (String ((Ascii (false, false, true,
+                               false, false, true, true, false)),
+                               EmptyString)))))))) p
+                           in
+                           let me = file_name st2 st2.cs_file in
+                           if existsb (fun it ->
+                                beq (file_name st2 it.si_file) me)
+                                st2.cs_stack
+                           then ((CErr
+                                  (lexeme_error st2 kw
+                                    (msg1 jerr_RecursionIsProhibited))), st2)
+                           else let id = N.of_nat (length st2.cs_files) in
+                                let st' = { cs_forest = st2.cs_forest;
+                                  cs_ctx = st2.cs_ctx; cs_cur = st2.cs_cur;
+                                  cs_file = id; cs_conf =
+                                  (init_conf init_st); cs_stack =
+                                  ({ si_file = st2.cs_file; si_conf =
+                                  st2.cs_conf; si_at =
+                                  kw.lb } :: st2.cs_stack); cs_tracers =
+                                  st2.cs_tracers; cs_files =
+                                  (app st2.cs_files ((p, content) :: []));
+                                  cs_log = st2.cs_log }
+                                in
+                                ((COk st'), st')
+                         | SDir ->
+                           bad st1
+                             (str (String ((Ascii (true, false, false, true,
+                               false, true, true, false)), (String ((Ascii
+                               (true, true, false, false, true, true, true,
+                               false)), (String ((Ascii (false, false, false,
+                               false, false, true, false, false)), (String
+                               ((Ascii (true, false, false, false, false,
+                               true, true, false)), (String ((Ascii (false,
+                               false, false, false, false, true, false,
+                               false)), (String ((Ascii (false, false, true,
+                               false, false, true, true, false)), (String
+                               ((Ascii (true, false, false, true, false,
+                               true, true, false)), (String ((Ascii (false,
+                               true, false, false, true, true, true, false)),
+                               (String ((Ascii (true, false, true, false,
+                               false, true, true, false)), (String ((Ascii
+                               (true, true, false, false, false, true, true,
+                               false)), (String ((Ascii (false, false, true,
+                               false, true, true, true, false)), (String
+                               ((Ascii (true, true, true, true, false, true,
+                               true, false)), (String ((Ascii (false, true,
+                               false, false, true, true, true, false)),
+                               (String ((Ascii (true, false, false, true,
+                               true, true, true, false)),
+                               EmptyString)))))))))))))))))))))))))))))
+                         | SMissing ->
+                           bad st1
+                             (str (String ((Ascii (false, false, true, false,
+                               false, true, true, false)), (String ((Ascii
+                               (true, true, true, true, false, true, true,
+                               false)), (String ((Ascii (true, false, true,
+                               false, false, true, true, false)), (String
+                               ((Ascii (true, true, false, false, true, true,
+                               true, false)), (String ((Ascii (false, false,
+                               false, false, false, true, false, false)),
+                               (String ((Ascii (false, true, true, true,
+                               false, true, true, false)), (String ((Ascii
+                               (true, true, true, true, false, true, true,
+                               false)), (String ((Ascii (false, false, true,
+                               false, true, true, true, false)), (String
+                               ((Ascii (false, false, false, false, false,
+                               true, false, false)), (String ((Ascii (true,
+                               false, true, false, false, true, true,
+                               false)), (String ((Ascii (false, false, false,
+                               true, true, true, true, false)), (String
+                               ((Ascii (true, false, false, true, false,
+                               true, true, false)), (String ((Ascii (true,
+                               true, false, false, true, true, true, false)),
+                               (String ((Ascii (false, false, true, false,
+                               true, true, true, false)),
+                               EmptyString)))))))))))))))))))))))))))))
+                         | SNotDir ->
+                           bad st1
+                             (app
+                               (str (String ((Ascii (true, true, false,
+                                 false, true, true, true, false)), (String
+                                 ((Ascii (false, false, true, false, true,
+                                 true, true, false)), (String ((Ascii (true,
+                                 false, false, false, false, true, true,
+                                 false)), (String ((Ascii (false, false,
+                                 true, false, true, true, true, false)),
+                                 (String ((Ascii (false, false, false, false,
+                                 false, true, false, false)),
+                                 EmptyString)))))))))))
+                               (app p
+                                 (str (String ((Ascii (false, true, false,
+                                   true, true, true, false, false)), (String
+                                   ((Ascii (false, false, false, false,
+                                   false, true, false, false)), (String
+                                   ((Ascii (false, true, true, true, false,
+                                   true, true, false)), (String ((Ascii
+                                   (true, true, true, true, false, true,
+                                   true, false)), (String ((Ascii (false,
+                                   false, true, false, true, true, true,
+                                   false)), (String ((Ascii (false, false,
+                                   false, false, false, true, false, false)),
+                                   (String ((Ascii (true, false, false,
+                                   false, false, true, true, false)), (String
+                                   ((Ascii (false, false, false, false,
+                                   false, true, false, false)), (String
+                                   ((Ascii (false, false, true, false, false,
+                                   true, true, false)), (String ((Ascii
+                                   (true, false, false, true, false, true,
+                                   true, false)), (String ((Ascii (false,
+                                   true, false, false, true, true, true,
+                                   false)), (String ((Ascii (true, false,
+                                   true, false, false, true, true, false)),
+                                   (String ((Ascii (true, true, false, false,
+                                   false, true, true, false)), (String
+                                   ((Ascii (false, false, true, false, true,
+                                   true, true, false)), (String ((Ascii
+                                   (true, true, true, true, false, true,
+                                   true, false)), (String ((Ascii (false,
+                                   true, false, false, true, true, true,
+                                   false)), (String ((Ascii (true, false,
+                                   false, true, true, true, true, false)),
+                                   EmptyString)))))))))))))))))))))))))))))))))))))))
+                   | None -> ((CPanic CPEmptyIncludeName), st0))
            | None -> ((CPanic CPLexemeValue), st0))
         | _ -> required)
      | None -> required)
